@@ -99,6 +99,22 @@ locals; `k in X` by the source text "in X" (a translated __contains__); `==` on 
 ("<T>.__delitem__"); in _try: `except Exception` (every kind but OutOfFuel) and a bare `raise` in the handler.
 Still rejected in heap mode: `==` / hashing / ordering of objects, attributes that are not declared, inheritance, class attributes,
 objects stored where the spec gives no reference type, a generator that changes the heap.
+Objects built on such heap objects (the paragraph classes of _deb822_repro/parsing.py over OrderedSet / LinkedList): iteration (for,
+comprehension, `yield from`) over an opaque object whose "<T>.__iter__" is MONADIC — it walks a linked structure through the heap
+(_iter_monadic: the items taken at once, at this point of the evaluation order); Fun.retype: a name rebound at another type
+(`key, _, _ = _unpack_key(key)`, _retyped); a list literal where a type of LIST OBJECTS (references into a store of lists: Python
+lists changed in place under several names) is expected: the allocating constructor "<T>.[]" (Call.substate); `k in self.attr`
+with the state attribute captured after the left operand (LetM); a field read "<T>.@attr" whose getter is monadic (a @property
+that reads through the heap, e.g. LinkedList.tail); `try: return E  except K: H` (desugared to _try_assign with `else: return`).
+Containers of mutable values and references to container objects (sets and dicts of lib/debian/debtags.py): `o[k] |= e` /
+`o[k].m(a…)` on an opaque container held in a local variable ("<T>.[].__ior__" / "<T>.[].m", _item_op_stmt: the element has no
+name of its own); `o[k] = v` where "<T>.__setitem__" is a Call with `substate` (o a reference to a container object in a heap;
+parameters in evaluation order: value, container, key); `{}` by a parameterless constructor "<T>.{}" (a constant, or with
+`substate` an allocation); `{K: V for x in IT}` / `for a, b in IT` by "<T>.{for}" (_dictcomp); `{E for x in S}` as
+set([E for x in S]) through the spec's `set`; `self.a, self.b = e` on state attributes; an attribute setter "<T>.@attr=" with
+`substate` (a container built as a value is published into the heap: fails closed if the local name may change it afterwards);
+`return obj` of an owned object; Module.ref_types (opaque types that ARE references: storing one shares, _consume); f(*X)
+for a rendering marked `star` (_arg); truth value of an Optional str/list returned by a call (tr_opt_nonempty).
 """
 import ast
 import os
@@ -115,7 +131,8 @@ ERR = {"ValueError": "ValueError", "KeyError": "KeyError", "TypeError": "TypeErr
        "StopIteration": "StopIteration", "ArError": "DebError", "DebError": "DebError", "IOError": "IOError",
        "OSError": "IOError", "ChangelogParseError": "ParseError",
        "ChangelogCreateError": "OtherError",    # Changelog/Model.v: opt_or_err (no kind of its own; err_kind says OtherError too)
-       "EOFError": "OtherError"}     # no kind of its own in Lib/Base.err: harness.core.err_kind reports it as OtherError too
+       "EOFError": "OtherError",     # no kind of its own in Lib/Base.err: harness.core.err_kind reports it as OtherError too
+       "AmbiguousDeb822FieldKeyError": "KeyError"}      # _deb822_repro/_util.py: a subclass of KeyError
 
 
 def ty_coq(t):
@@ -845,6 +862,11 @@ class FunTr:
             # truth value of an optional str/list read by a subscript `o[k]` (an expression: nothing to narrow):
             # None and the empty value are falsy
             return E(e.pre, "(tr_opt_nonempty %s)" % e.text, "bool")
+        if isinstance(n, ast.Call) and isinstance(e.ty, tuple) and e.ty[0] == "option" \
+                and (e.ty[1] == "str" or (isinstance(e.ty[1], tuple) and e.ty[1][0] == "list")):
+            # truth value of an optional str/list returned by a call (`if m.group(2):` — an expression: nothing to
+            # narrow): None and the empty value are falsy
+            return E(e.pre, "(tr_opt_nonempty %s)" % e.text, "bool")
         return E(e.pre, self.truthy(e, n), "bool")
 
     def _const(self, n, want):
@@ -929,6 +951,12 @@ class FunTr:
                 g = self.mod.calls.get("<%s>.@%s" % (tname, n.attr))
                 if isinstance(g, Call) and len(g.args) == 1 and not g.monadic:
                     return E(recv.pre, "(%s %s)" % (g.coq, coerce(recv.text, recv.ty, g.args[0], n)), g.ret)
+                if isinstance(g, Call) and len(g.args) == 1 and g.monadic and not g.mutates and not g.substate \
+                        and isinstance(n.ctx, ast.Load):
+                    # … a getter that may fail (a @property of an object whose attributes live in the heap, e.g.
+                    # LinkedList.tail reading the tail node): a prelude entry at this point of the evaluation order
+                    t = self.tmp()
+                    return E(recv.pre + [(t, "%s %s" % (g.coq, coerce(recv.text, recv.ty, g.args[0], n)))], t, g.ret)
             _bad("attribute %s" % key, n)
         if isinstance(n, ast.Tuple):
             wants = list(want[1:]) if isinstance(want, tuple) and want[0] == "tuple" and len(want) - 1 == len(n.elts) \
@@ -938,6 +966,17 @@ class FunTr:
             tys = [w if w is not None else e.ty for e, w in zip(es, wants)]
             return E(sum((e.pre for e in es), []), "(" + ", ".join(texts) + ")", ("tuple",) + tuple(tys))
         if isinstance(n, ast.List):
+            gl = self.mod.calls.get("<%s>.[]" % want[1]) if isinstance(want, tuple) and want[0] == "coq" else None
+            if isinstance(gl, Call) and gl.substate and len(gl.args) == 1 and isinstance(gl.args[0], tuple) \
+                    and gl.args[0][0] == "list" and gl.ret == want and not gl.mutates and not gl.monadic \
+                    and not any(isinstance(x, ast.Starred) for x in n.elts):
+                # a list literal where an opaque type of LIST OBJECTS (references into a store of lists: lists that are
+                # changed in place under several names) is expected: the spec's constructor "<type>.[]" (Call.substate:
+                # the allocation of a new list object holding the elements, which are evaluated first, left to right)
+                es = [self.expr(x, env, gl.args[0][1]) for x in n.elts]
+                lit = "[" + "; ".join(coerce(e.text, e.ty, gl.args[0][1], x) for e, x in zip(es, n.elts)) + "]"
+                t = self.tmp()
+                return E(sum((e.pre for e in es), []) + [(t, self._sub_call(gl, [lit], n))], t, want)
             if not n.elts:
                 if isinstance(want, tuple) and want[0] == "coq" \
                         and any(f_ == "nil" and same_repr(want, t_) for f_, t_, _ in _COERCIONS):
@@ -956,6 +995,14 @@ class FunTr:
                 # the empty dict literal where an opaque type is expected: the spec's constant "{}" of that type
                 return E([], self.mod.consts["{}"][0], want)
             g = self.mod.calls.get("<%s>.{}" % want[1]) if isinstance(want, tuple) and want[0] == "coq" else None
+            if not n.keys and isinstance(g, Call) and not g.args and g.ret == want and not g.mutates and not g.monadic:
+                # the empty dict literal where an opaque type is expected and the spec gives a constructor "<type>.{}"
+                # WITHOUT parameters: a constant, or — with Call.substate — the allocation of a new dict object on
+                # (part of) the state, e.g. a heap of dict objects (a prelude entry, in evaluation order)
+                if g.substate:
+                    t = self.tmp()
+                    return E([(t, self._sub_call(g, [], n))], t, want)
+                return E([], g.coq, want)
             if n.keys and isinstance(g, Call) and not g.mutates and g.kw is not None and len(g.kw) == len(g.args) \
                     and g.ret == want:
                 # a dict literal with constant str keys where an opaque type is expected: the spec's constructor
@@ -1050,6 +1097,7 @@ class FunTr:
                 it = self.pure(ast.copy_location(ast.ListComp(elt=g.iter.elt, generators=g.iter.generators), g.iter), env)
             else:
                 it = self.expr(g.iter, env)
+            it = self._iter_monadic(it, n)
             if isinstance(it.ty, tuple) and it.ty[0] == "coq":
                 # a comprehension over an opaque object: the spec's "<type>.__iter__" (pure, a list), as in a for statement
                 gi = self.mod.calls.get("<%s>.__iter__" % it.ty[1])
@@ -1080,7 +1128,61 @@ class FunTr:
             return E(it.pre, "(map (fun %s => %s) %s)" % (x, body.text, it.text), ("list", body.ty))
         if isinstance(n, ast.Call):
             return self._call(n, env, want)
+        if isinstance(n, ast.SetComp) and "set" in self.mod.calls and "set" not in env:
+            # {E for x in S} is set([E for x in S]): the elements are produced in the same order, with the same
+            # exceptions, and put into a new set — rendered through the spec's rendering of `set`
+            des = ast.Call(func=ast.Name(id="set", ctx=ast.Load()),
+                           args=[ast.ListComp(elt=n.elt, generators=n.generators)], keywords=[])
+            for m_ in ast.walk(des):
+                if not hasattr(m_, "lineno"):
+                    ast.copy_location(m_, n)
+            return self._call(ast.fix_missing_locations(ast.copy_location(des, n)), env, want)
+        if isinstance(n, ast.DictComp):
+            return self._dictcomp(n, env, want)
         _bad("expression %s" % type(n).__name__, n)
+
+    def _dictcomp(self, n, env, want):
+        """{K: V for x in IT} / {K: V for a, b in IT} where an opaque dict type T is expected: the spec's constructor
+        "<T>.{for}" : list (key * value) -> T applied to the pairs in the order in which they are produced (a later pair
+        with an equal key replaces the value and keeps the place: the constructor's business).  For each element Python
+        evaluates K, then V; the first exception ends the comprehension."""
+        g = self.mod.calls.get("<%s>.{for}" % want[1]) if isinstance(want, tuple) and want[0] == "coq" else None
+        if not (isinstance(g, Call) and len(g.args) == 1 and not g.monadic and not g.mutates and not g.substate
+                and g.ret == want and isinstance(g.args[0], tuple) and g.args[0][0] == "list"
+                and isinstance(g.args[0][1], tuple) and g.args[0][1][0] == "tuple" and len(g.args[0][1]) == 3):
+            _bad("dict comprehension: needs the constructor \"<T>.{for}\" (a list of (key, value) pairs -> T) for the "
+                 "opaque type expected here (%r)" % (want,), n)
+        kty, vty = g.args[0][1][1], g.args[0][1][2]
+        if len(n.generators) != 1 or n.generators[0].is_async or n.generators[0].ifs:
+            _bad("only {K: V for x in IT} dict comprehensions", n)
+        gen = n.generators[0]
+        it = self.expr(gen.iter, env)
+        if isinstance(it.ty, tuple) and it.ty[0] == "coq":
+            gi = self.mod.calls.get("<%s>.__iter__" % it.ty[1])
+            if isinstance(gi, Call) and len(gi.args) == 1 and not gi.monadic and not gi.mutates \
+                    and isinstance(gi.ret, tuple) and gi.ret[0] == "list":
+                it = E(it.pre, "(%s %s)" % (gi.coq, coerce(it.text, it.ty, gi.args[0], n)), gi.ret)
+        ety = self._elem_ty(it.ty, gen.iter)
+        env2 = dict(env)
+        if isinstance(gen.target, ast.Name):
+            env2[gen.target.id] = ety
+            pat = cname(gen.target.id)
+        elif isinstance(gen.target, ast.Tuple) and all(isinstance(x, ast.Name) for x in gen.target.elts) \
+                and isinstance(ety, tuple) and ety[0] == "tuple" and len(ety) - 1 == len(gen.target.elts) \
+                and len({x.id for x in gen.target.elts}) == len(gen.target.elts):
+            for x, ty in zip(gen.target.elts, ety[1:]):
+                env2[x.id] = ty
+            pat = "'(" + ", ".join(cname(x.id) for x in gen.target.elts) + ")"
+        else:
+            _bad("dict comprehension target", n)
+        k = self.expr(n.key, env2, kty)
+        v = self.expr(n.value, env2, vty)
+        pair = "(%s, %s)" % (coerce(k.text, k.ty, kty, n), coerce(v.text, v.ty, vty, n))
+        if k.pre or v.pre:
+            t = self.tmp()
+            return E(it.pre + [(t, "tr_mapM (fun %s => %s) %s" % (pat, wrap(k.pre + v.pre, "Ok %s" % pair), it.text))],
+                     "(%s %s)" % (g.coq, t), want)
+        return E(it.pre, "(%s (map (fun %s => %s) %s))" % (g.coq, pat, pair, it.text), want)
 
     def _value_or(self, n, env):
         """`a or d` in VALUE position with `a` an optional / plain str or list and `d` a pure str or list:
@@ -1107,6 +1209,22 @@ class FunTr:
         if isinstance(t, tuple) and t[0] in ("list", "iter"):
             return t[1]
         _bad("cannot iterate over %r" % (t,), node)
+
+    def _iter_monadic(self, it, node):
+        """Iteration (for statement, comprehension, `yield from`) over an opaque object whose spec entry "<type>.__iter__"
+        is MONADIC (one argument, returns `result (list T)`; it may name the heap / state variables of the function it is
+        used in): the items as a list, taken once, at this point of the evaluation order (a prelude entry).  Python would
+        produce the items one by one; taking them at once is the same when producing them has no effect and cannot
+        raise a Python exception — the spec author's claim about the primitive, whose only errors must be the model's
+        non-Python ones (a dangling reference, fuel: a linked structure walked through the heap).  Anything else about
+        `it` is returned unchanged."""
+        if isinstance(it.ty, tuple) and it.ty[0] == "coq":
+            g = self.mod.calls.get("<%s>.__iter__" % it.ty[1])
+            if isinstance(g, Call) and len(g.args) == 1 and g.monadic and not g.mutates and not g.substate \
+                    and isinstance(g.ret, tuple) and g.ret[0] == "list":
+                t = self.tmp()
+                return E(it.pre + [(t, "%s %s" % (g.coq, coerce(it.text, it.ty, g.args[0], node)))], t, g.ret)
+        return it
 
     @staticmethod
     def _pure_contains(g):
@@ -1234,6 +1352,7 @@ class FunTr:
         a = self.expr(n.left, env)
         if isinstance(op, (ast.In, ast.NotIn)):
             neg = isinstance(op, ast.NotIn)
+            cap = []        # (HEAP MODE) the container is a state attribute: its value captured here (LetM), after the left operand
             if isinstance(rn, ast.Tuple):
                 items = [self.pure(x, env, a.ty) for x in rn.elts]
                 if a.ty in ("str", "char"):
@@ -1250,7 +1369,10 @@ class FunTr:
                     t = self.tmp()
                     return E(a.pre + [(t, "%s %s" % (g_in.coq, coerce(a.text, a.ty, g_in.args[0], n)))],
                              "(negb %s)" % t if neg else t, "bool")
-                b = self.pure(rn, env)
+                b = self.expr(rn, env)
+                if any(not isinstance(m_, LetM) for _, m_ in b.pre):
+                    _bad("expression may raise where only a pure one is supported: %s" % ast.unparse(rn), rn)
+                cap = b.pre
                 if a.ty == "char" and b.ty in ("str", "strbuf"):
                     txt = "(tr_char_in %s %s)" % (a.text, b.text)
                 elif a.ty == "str" and b.ty in ("str", "strbuf") and isinstance(n.left, ast.Constant) \
@@ -1271,7 +1393,7 @@ class FunTr:
                     txt = "(%s %s %s)" % (g.coq, coerce(b.text, b.ty, g.args[0], n), coerce(a.text, a.ty, g.args[1], n))
                 else:
                     _bad("membership of %r in %r" % (a.ty, b.ty), n)
-            return E(a.pre, "(negb %s)" % txt if neg else txt, "bool")
+            return E(a.pre + cap, "(negb %s)" % txt if neg else txt, "bool")
         b = self.expr(rn, env, a.ty)
         pre = a.pre + b.pre
         ta, tb = a.ty, b.ty
@@ -1400,6 +1522,14 @@ class FunTr:
         `map(F, L)` written directly as the argument (_map_as_comp) likewise; its elements MAY raise when it is the
         LAST argument of a rendering marked `exhausts` (the spec vouches that the callee takes every element before it
         does anything else observable, e.g. str.join): then the first exception comes out of the call either way."""
+        if isinstance(a, ast.Starred) and cand is not None and getattr(cand, "star", False) and last and len(cand.args) == 1:
+            # f(*X) for a rendering marked `star` (set after construction; ONE parameter: the list of all positional
+            # arguments): star-unpacking takes every element of X — a list, or a generator expression, which may raise —
+            # to build the argument tuple BEFORE f is called, so X is evaluated here, as a list
+            x = a.value
+            if isinstance(x, ast.GeneratorExp):
+                x = ast.copy_location(ast.ListComp(elt=x.elt, generators=x.generators), x)
+            return self.expr(x, env, w)
         if isinstance(a, ast.GeneratorExp):
             return self.pure(ast.copy_location(ast.ListComp(elt=a.elt, generators=a.generators), a), env, w)
         if self._is_map(a):
@@ -1781,6 +1911,8 @@ class FunTr:
                     and m.value.func.attr == "append" and len(m.value.args) == 1 and not m.value.keywords \
                     and isinstance(m.value.args[0], ast.Name) and m.value.args[0].id == obj:
                 allowed.add(id(m.value.args[0]))
+            if isinstance(m, ast.Return) and isinstance(m.value, ast.Name) and m.value.id == obj:
+                allowed.add(id(m.value))    # `return obj`: the function ends here, its only name of the object with it
         for m in ast.walk(self.node):
             if isinstance(m, ast.Name) and m.id == obj and id(m) not in allowed:
                 _bad("the object %r, whose attributes are assigned, is used other than as `%s.attr`, `%s = <call>` or "
@@ -1794,6 +1926,10 @@ class FunTr:
         closed; join points and loop back-edges require it to be rebound on every path)."""
         if isinstance(value, ast.Attribute) and ast.unparse(value) in self.stattr:
             t = self.decl.get(self.stattr[ast.unparse(value)])
+            if isinstance(t, tuple) and t[0] == "coq" and t[1] in getattr(self.mod, "ref_types", ()):
+                # Module.ref_types (opt-in): opaque types whose values are REFERENCES to objects that live in the state (a
+                # heap): storing one into an object shares the object it refers to, which is what such a type renders
+                return env
             if into_object and (t == "strbuf" or (isinstance(t, tuple) and t[0] in ("list", "iter", "dict", "coq"))):
                 _bad("a mutable state attribute is stored into an object: two names of one object", node)
             return env
@@ -1824,10 +1960,27 @@ class FunTr:
             return self.falls_through(last.body) or self.falls_through(last.orelse)
         return True
 
+    def _retyped(self, name, ety):
+        """Fun.retype (opt-in, set after construction): {"x": [T1, T2…]} — a Python name that is REBOUND AT ANOTHER TYPE than
+        its declared one (`key, _, _ = _unpack_key(key)`: a ParagraphKey, then a _strI): an assignment of a value whose
+        type is one of the listed ones binds the name at that type from there on (a Coq `let` shadows at any type).
+        Where environments meet (join points, loop back-edges, state tuples) the name is passed at its DECLARED type as
+        before, so a path on which it still has the other type fails closed.  Never for a state variable.
+        -> the listed type with the representation of `ety`, else None."""
+        if name in self.stattr.values() or isinstance(ety, str) and ety in ("none", "nil"):
+            return None
+        for t in (getattr(self.fun, "retype", None) or {}).get(name, ()):
+            if same_repr(ety, t) and not same_repr(t, self.decl.get(name)):
+                return t
+        return None
+
     def bind(self, name, e, env, node):
         """let name := e (coerced to the declared type); returns (text prefix, new env)."""
         ty = self.declared(name, node)
         env2 = dict(env)
+        if self._retyped(name, e.ty) is not None:
+            env2[name] = self._retyped(name, e.ty)      # Fun.retype: the name is rebound at another type
+            return "let %s := %s in " % (cname(name), e.text), env2
         if self.fun.narrow and isinstance(ty, tuple) and ty[0] == "option" and e.ty not in ("none", "nil") \
                 and same_repr(e.ty, ty[1]) and name not in self.stattr.values():     # (state attributes: never narrowed)
             env2[name] = ty[1]          # flow typing: the variable is known not to be None from here on
@@ -1989,6 +2142,15 @@ class FunTr:
                 return self.block([hk] + list(rest), env, k, ctx)
             if isinstance(t, ast.Attribute) and ast.unparse(t) in self.stattr:
                 t = ast.copy_location(ast.Name(id=self.stattr[ast.unparse(t)], ctx=ast.Store()), t)
+            if isinstance(t, ast.Tuple) and any(isinstance(x, ast.Attribute) for x in t.elts) \
+                    and all(isinstance(x, ast.Name) or (isinstance(x, ast.Attribute) and ast.unparse(x) in self.stattr
+                                                        and not self.mod.attr_hooks.get(ast.unparse(x), (None, None))[1])
+                            for x in t.elts):
+                # self.a, self.b = e with state attributes among the targets: their state variables (the right-hand side
+                # is evaluated first, the stores — of plain attributes: they cannot raise — follow from left to right)
+                t = ast.copy_location(ast.Tuple(elts=[
+                    ast.copy_location(ast.Name(id=self.stattr[ast.unparse(x)], ctx=ast.Store()), x)
+                    if isinstance(x, ast.Attribute) else x for x in t.elts], ctx=ast.Store()), t)
             if isinstance(t, ast.Subscript) and isinstance(t.value, ast.Attribute) and ast.unparse(t.value) in self.stattr \
                     and isinstance(self.decl.get(self.stattr[ast.unparse(t.value)]), tuple) \
                     and self.decl[self.stattr[ast.unparse(t.value)]][0] == "coq":
@@ -2058,7 +2220,7 @@ class FunTr:
                 for x, ty in zip(t.elts, e.ty[1:]):
                     f = self.tmp()
                     fresh.append(f)
-                    dty = self.declared(x.id, s)
+                    dty = self._retyped(x.id, ty) or self.declared(x.id, s)      # (Fun.retype: rebound at another type)
                     env2[x.id] = dty
                     lets += "let %s := %s in " % (cname(x.id), coerce(f, ty, dty, s))
                 body = "(let '(%s) := %s in %s%s)" % (", ".join(fresh), e.text, lets, nxt(env2))
@@ -2079,6 +2241,16 @@ class FunTr:
                     # receiver-mutating primitive "<type>.__setitem__" : obj -> k -> v -> (unit * obj') [result of it].
                     # Python evaluates v, then obj, then k, then calls __setitem__.
                     cand = self._by_literal_key(self.mod.calls.get("<%s>.__setitem__" % oty[1]), t.slice)
+                    if isinstance(cand, Call) and cand.substate and len(cand.args) == 3 and cand.ret == "unit" \
+                            and not cand.mutates:
+                        # … or, when obj is a REFERENCE to a container object that lives in (part of) the state — a heap
+                        # of dict objects — "<T>.__setitem__" is a primitive with Call.substate whose parameters stand
+                        # IN EVALUATION ORDER: (value, container, key).  The store changes the heap, not the reference.
+                        e = self._sub_call_expr(cand, [s.value, t.value, t.slice], env, s)
+                        env2 = dict(env)
+                        for _, v_, t_ in self.fun.state:
+                            env2[v_] = t_
+                        return self.swrap(e.pre, nxt(env2))
                     if isinstance(cand, Call) and cand.selfmethod:
                         # … or, when obj IS the object of a method in METHOD MODE (its one state variable, source text
                         # = variable name, e.g. state=[("self", "self", T)]) and "<T>.__setitem__" is a translated method
@@ -2130,6 +2302,23 @@ class FunTr:
                 # Python evaluates e first; the store itself cannot raise (a plain attribute: the spec author's claim).
                 obj, oty = t.value.id, env[t.value.id]
                 g = self.mod.calls.get("<%s>.@%s=" % (oty[1], t.attr))
+                if isinstance(g, Call) and g.substate and len(g.args) == 2 and not g.mutates and same_repr(g.ret, g.args[0]):
+                    # … or a setter with Call.substate: storing the value into the object changes (part of) the state — a
+                    # container that was built as a VALUE is PUBLISHED into a heap of container objects, where the object
+                    # and the local name now denote the same thing.  Faithful only if the value is not changed through
+                    # the local name afterwards: the statement must stand at the top level of the function and no later
+                    # statement of that level may (re)bind or change the name (fail closed otherwise).
+                    self._owned_object(obj, s)
+                    if isinstance(s.value, ast.Name):
+                        if not any(s is x_ for x_ in self.node.body) or s.value.id in self.assigned(list(rest)):
+                            _bad("%s is stored into %s.%s (published) and may be changed afterwards through its name"
+                                 % (s.value.id, obj, t.attr), s)
+                    e = self._sub_call_expr(g, [t.value, s.value], env, s)
+                    env2 = dict(env)
+                    for _, v_, t_ in self.fun.state:
+                        env2[v_] = t_
+                    return self.swrap(e.pre, "(let %s := %s in %s)" % (
+                        cname(obj), coerce(e.text, g.ret, self.declared(obj, s), s), nxt(env2)))
                 if not (isinstance(g, Call) and len(g.args) == 2 and not g.monadic and not g.mutates
                         and same_repr(g.ret, g.args[0])):
                     _bad("no setter \"<%s>.@%s=\" (object -> value -> object) in the spec" % (oty[1], t.attr), s)
@@ -2144,6 +2333,12 @@ class FunTr:
                 s = ast.copy_location(ast.AugAssign(
                     target=ast.copy_location(ast.Name(id=self.stattr[ast.unparse(s.target)], ctx=ast.Store()), s.target),
                     op=s.op, value=s.value), s)
+            if isinstance(s.target, ast.Subscript) and not isinstance(s.target.slice, ast.Slice) \
+                    and isinstance(s.op, ast.BitOr):
+                # o[k] |= e on an opaque container held in a local variable (_item_op_stmt)
+                r_ = self._item_op_stmt(s.target.value, s.target.slice, "__ior__", [s.value], env, nxt, s)
+                if r_ is not None:
+                    return r_
             if not isinstance(s.target, ast.Name):
                 _bad("augmented assignment target", s)
             fake = ast.BinOp(left=ast.Name(id=s.target.id, ctx=ast.Load()), op=s.op, right=s.value)
@@ -2169,7 +2364,7 @@ class FunTr:
             x = s.value.value
             if isinstance(x, ast.GeneratorExp):
                 x = ast.copy_location(ast.ListComp(elt=x.elt, generators=x.generators), x)
-            e = self.expr(x, env, ("list", self.fun.ret))
+            e = self._iter_monadic(self.expr(x, env, ("list", self.fun.ret)), s)
             if not (isinstance(e.ty, tuple) and e.ty[0] in ("list", "iter") and same_repr(e.ty[1], self.fun.ret)):
                 _bad("yield from a value of type %r in a generator of %r" % (e.ty, self.fun.ret), s)
             return self.swrap(e.pre, "(let out__ := out__ ++ %s in %s)" % (e.text, nxt(env)))
@@ -2197,6 +2392,13 @@ class FunTr:
             mi = self._mutating_item(s.value, env)
             if mi is not None:
                 return self._mut_item_stmt(mi, env, nxt, s)
+            c_ = s.value
+            if isinstance(c_.func, ast.Attribute) and isinstance(c_.func.value, ast.Subscript) \
+                    and not isinstance(c_.func.value.slice, ast.Slice) and not c_.keywords:
+                # o[k].m(a…) on an opaque container held in a local variable (_item_op_stmt)
+                r_ = self._item_op_stmt(c_.func.value.value, c_.func.value.slice, c_.func.attr, list(c_.args), env, nxt, s)
+                if r_ is not None:
+                    return r_
         if isinstance(s, ast.Expr) and isinstance(s.value, ast.Call) and isinstance(s.value.func, ast.Attribute) \
                 and isinstance(s.value.func.value, ast.Name) and s.value.func.value.id in env:
             obj, meth, args = s.value.func.value.id, s.value.func.attr, s.value.args
@@ -2250,6 +2452,24 @@ class FunTr:
         raise point are not carried by `MErr`, so H and what follows see the locals as they were before the try."""
         if self._is_try_assign(s):
             return self._try_assign(s, rest, env, k, ctx)
+        if len(s.body) == 1 and isinstance(s.body[0], ast.Return) and s.body[0].value is not None and s.handlers \
+                and not s.orelse and not s.finalbody and not self.fun.generator and self.fun.result_var is None:
+            # try: return E  except K: H    is    try: tryret__ = E  except K: H  else: return tryret__   (_try_assign):
+            # `return` itself cannot raise, so the handlers guard exactly the evaluation of E
+            tmpn = "tryret__"
+            if tmpn in self.decl and self.decl[tmpn] != self.rty:
+                _bad("name clash with %s" % tmpn, s)
+            if tmpn not in self.decl:
+                self.decl[tmpn] = self.rty
+                self.order.append(tmpn)
+            self.fun.locals.setdefault(tmpn, self.rty)
+            asn = ast.Assign(targets=[ast.Name(id=tmpn, ctx=ast.Store())], value=s.body[0].value)
+            ret = ast.Return(value=ast.Name(id=tmpn, ctx=ast.Load()))
+            des = ast.Try(body=[asn], handlers=s.handlers, orelse=[ret], finalbody=[])
+            for m in (asn, ret, des):
+                ast.copy_location(m, s)
+                ast.fix_missing_locations(m)
+            return self._try_assign(des, rest, env, k, ctx)
         if not self.method or self.fun.generator:
             _bad("try/except is supported in method mode only", s)
         if s.orelse or s.finalbody or not s.handlers:
@@ -2623,6 +2843,36 @@ class FunTr:
             return self.swrap(pre + [(pr, app)], "(let '(%s, %s) := %s in %s%s)" % (rv, rr, pr, lets, nxt(env2)))
         return self.swrap(pre, "(let '(%s, %s) := %s in %s%s)" % (rv, rr, app, lets, nxt(env2)))
 
+    def _item_op_stmt(self, base, key, meth, argn, env, nxt, node):
+        """`o[k].m(a…)` / `o[k] |= e` (meth "__ior__") as a statement, for o a LOCAL VARIABLE of an opaque container type T
+        whose elements are mutable values that have no name of their own (a dict of sets rendered by value): the spec's
+        receiver-mutating primitive "<T>.[].m" : o -> k -> a… -> (unit * o') [result of it] — the element under k is looked
+        up (the primitive's KeyError), changed in place, and o holds the changed element from then on.  Faithful only
+        while no element of o has a second name: the spec author's claim, made by choosing that type (and supported by
+        typing what may be STORED into such a container as a freshly made value).  Python evaluates o, k, o[k], then
+        the arguments: these must be pure, so that the KeyError cannot overtake an exception of theirs.
+        None if the statement is not of that shape (the caller goes on / fails closed)."""
+        if not (isinstance(base, ast.Name) and base.id in env and isinstance(env[base.id], tuple) and env[base.id][0] == "coq"):
+            return None
+        obj, oty = base.id, env[base.id]
+        cand = self.mod.calls.get("<%s>.[].%s" % (oty[1], meth))
+        if not (isinstance(cand, Call) and cand.mutates and not cand.substate and len(cand.args) == 2 + len(argn)
+                and cand.ret == "unit"):
+            return None
+        kx = self.expr(key, env, cand.args[1])
+        if self._heap_rw():
+            self._no_stm(kx.pre, node, "the key of an operation on an item")
+        es = [self.pure(a, env, w) for a, w in zip(argn, cand.args[2:])]
+        texts = [coerce(cname(obj), oty, cand.args[0], node), coerce(kx.text, kx.ty, cand.args[1], node)] + \
+                [coerce(e.text, e.ty, w, node) for e, w in zip(es, cand.args[2:])]
+        app = "%s %s" % (cand.coq, " ".join(texts))
+        rv, rr = self.tmp(), self.tmp()
+        body = "let %s := %s in %s" % (cname(obj), coerce(rr, cand.args[0], self.declared(obj, node), node), nxt(env))
+        if cand.monadic:
+            pr = self.tmp()
+            return self.swrap(kx.pre + [(pr, app)], "(let '(%s, %s) := %s in %s)" % (rv, rr, pr, body))
+        return self.swrap(kx.pre, "(let '(%s, %s) := %s in %s)" % (rv, rr, app, body))
+
     def _mutating_item(self, call, env):
         """`L[i].m(args)` where L is a list variable / state attribute whose elements have the opaque type T and the spec
         declares "<T>.m" as a receiver-mutating method -> (cand, list variable, index node, argument nodes)."""
@@ -2937,7 +3187,7 @@ class FunTr:
                     ok = True       # changed, then `break` at once: the iterator is never asked again
                 if not ok:
                     _bad("the loop body changes %r, which the loop iterates over" % nm, s)
-            it = self.expr(s.iter, env)
+            it = self._iter_monadic(self.expr(s.iter, env), s)
             if isinstance(it.ty, tuple) and it.ty[0] == "coq":
                 # iteration over an opaque object: the spec's primitive "<type>.__iter__" gives the items in the order
                 # in which the object yields them (pure, one argument, a list) — evaluated once, like any iterable here
